@@ -2629,6 +2629,15 @@ func (pid *PID) tryPassivation(reason string) bool {
 	pid.stopLocker.Lock()
 	defer pid.stopLocker.Unlock()
 
+	// the state flags above were read before the lock was taken. A stop that
+	// won the lock in between has already run PostStop, and a ResumePassivation
+	// or Reinstate handled after the actor stopped registers the dead PID with
+	// the passivation manager again: never stop an actor a second time
+	if !pid.isStateSet(runningState) {
+		pid.unregisterPassivation()
+		return false
+	}
+
 	if pid.compareAndSwapState(passivationSkipNextState, true, false) {
 		pid.logger.Debugf("passivation decision aborted for %s due to reinstate observed during critical section", pid.Name())
 		return false
